@@ -1,6 +1,6 @@
 (* C02 -- returned utilities agree with the returned selection.  Statements only. *)
 From Coq Require Import ZArith List Bool.
-From V Require Import Base.OptOrder Model.Sel Model.PoolQuery Proofs.SelProofs Proofs.PoolProofs.
+From V Require Import Base.OptOrder Model.Sel Model.PoolQuery Proofs.SelProofs Proofs.PoolProofs Proofs.SkeletonProofs.
 Import ListNotations.
 Open Scope Z_scope.
 
@@ -33,6 +33,21 @@ Proof.
   split; [exact H5|]. unfold t. rewrite Forall_forall in *. intros [i row] Hs. specialize (H3 _ Hs). cbn in H3. tauto.
 Qed.
 Print Assumptions C02_simple_batch_rows.
+
+(* ... and the whole canonical skeleton (scores scattered into a NaN-filled vector through the
+   mapping, then simple_batch) yields a trace the acceptor accepts: by C02_accepted_rows its rows
+   are NaN exactly at non-candidates and earlier picks and every pick attains its row maximum *)
+Theorem C02_skeleton_accepted :
+  forall (lab : list bool) (c : cand) (scores : list val) (noises : list (list Z)) (bs : nat),
+  (forall l, c = CIdx l -> Forall (fun i => (i < length lab)%nat) l) ->
+  length scores = length (cand_set lab c) -> Forall (fun v => is_nan v = false) scores ->
+  noises_ok (ncols lab c) (expected_k bs lab c) noises ->
+  accepts_pool SelMax lab c bs (skeleton lab c scores noises bs) = true.
+Proof.
+  intros lab c scores noises bs Hc Hl Hs Hn.
+  exact (skeleton_accepted lab c scores noises bs (conj Hl Hs) (cand_wf_all lab c Hc) Hn).
+Qed.
+Print Assumptions C02_skeleton_accepted.
 
 (* rows built with one tie-break and winners re-derived with another one (the
    BatchBALD pattern) allow a repeated pick: witness with two tied maxima *)
